@@ -219,20 +219,13 @@ def regenerate(ctx):
     return True
 
 
-def run(ctx):
-    rng = ctx.rng
-    regenerate(ctx)
-    exe, log = vlib.build_extracted("num")
-    if not exe:
-        ctx.tie_broken("extraction-num", log)
-        return
-    h, hlog = vlib.compile_harness("h_num", flags=("-DNDEBUG", "-I" + os.path.join(vlib.IMPL, "src", "parsers", "smt2new")))
-    if not h:
-        ctx.tie_broken("harness-h_num", hlog)
-        return
+def case_batches(ctx, rng, longs, size=600000):
+    lines = []
 
-    # ------------------------------------------------------------------ cases
-    lines = []     # (line, kind)
+    def flush():
+        nonlocal lines
+        out, lines = lines, []
+        return out
     for p in sorted(glob.glob(os.path.join(vlib.VERIF, "corpus", "C16", "*.txt"))):
         for l in open(p):
             l = l.rstrip("\n")
@@ -242,12 +235,14 @@ def run(ctx):
     for n in range(1, 6):
         for t in itertools.product(FULL, repeat=n):
             lines.append(("L " + "".join(t), "L:exhaustive"))
+            if len(lines) >= size:
+                yield flush()
     if not ctx.quick:
-        for t in itertools.product(A11, repeat=6):
-            lines.append(("L " + "".join(t), "L:exhaustive-reduced-digits"))
-        for t in itertools.product(A8, repeat=7):
-            lines.append(("L " + "".join(t), "L:exhaustive-reduced-digits"))
-    longs = long_literals(rng, 3000 if ctx.quick else 40000)
+        for alpha, n in ((A11, 6), (A8, 7)):
+            for t in itertools.product(alpha, repeat=n):
+                lines.append(("L " + "".join(t), "L:exhaustive-reduced-digits"))
+                if len(lines) >= size:
+                    yield flush()
     for s in longs:
         lines.append(("L " + s, "L:long"))
     for n in range(1, 5):
@@ -255,9 +250,8 @@ def run(ctx):
             lines.append(("T " + "".join(t), "T:exhaustive"))
     for s in longs[:1500]:
         lines.append(("T " + s, "T:long"))
-    for s in ["(assert (= (+ x 007) 7))", "(= x 1.50 -2/3 #b01 #xfF :k |", "(push 1)(pop 1)(get-value (x))", "1.5.5 00.50 0/1 -0 --1 1-2"]:
-        if "|" not in s:
-            lines.append(("T " + s, "T:script"))
+    for s in ["(assert (= (+ x 007) 7))", "(= x 1.50 -2/3 #b01 #xfF :k)", "(push 1)(pop 1)(get-value (x))", "1.5.5 00.50 0/1 -0 --1 1-2"]:
+        lines.append(("T " + s, "T:script"))
     for _ in range(400):
         a = str(abs(numgen.rand_int(rng)))
         z = "0" * rng.randint(0, 3)
@@ -270,20 +264,21 @@ def run(ctx):
         if rng.random() < 0.4:
             d = rng.randint(1, 12)
         lines.append(("P %d/%d" % (n, d), "P:print"))
+    yield flush()
 
+
+def process(ctx, rng, exe, h, lines, samples, state):
     ok1, lm = par_run(exe, [l for l, _ in lines])
     if not ok1:
         ctx.tie_broken("num-correspondence-run", "the model driver failed on some chunk")
-        return
+        return False
     # the scanner's catch-all rule calls exit(1): texts with a predicted ERROR token are not sent to it
     send = [(l, k) if not (l.startswith("T ") and "ERROR" in m) else ("L <empty>", k) for (l, k), m in zip(lines, lm)]
     ok2, li = par_run(h, [l for l, _ in send])
     if not ok2:
         ctx.tie_broken("num-correspondence-run", "the harness failed on some chunk; last output lines: %s" % " / ".join(x for x in li[-400:] if x)[-300:])
-        return
+        return False
 
-    samples = {}
-    n_garbage = 0
     for ((line, kind), (sent, _), m, i) in zip(lines, send, lm, li):
         op, arg = line[0], line[2:]
         ctx.case(key=line, nontrivial=any(c.isdigit() for c in arg), kind=kind)
@@ -296,7 +291,7 @@ def run(ctx):
             ok = m == i
             if not ok and "garbage" in m:
                 # value of a FastRational built from an unparsable string: whatever the recycled mpq_t held
-                n_garbage += 1
+                state["n_garbage"] += 1
                 ok = re.sub(r"Int \S+ ", "Int * ", m) == re.sub(r"Int \S+ ", "Int * ", i)
             if not ok and "nonnum" in m and "CRASH" in i and arg in ("/", "-", "+", "*"):
                 ok = m == i.replace("CRASH", "nonnum")     # Logic::mkConst on an operator name: see judge_api
@@ -330,7 +325,29 @@ def run(ctx):
             if not ok:
                 violation(ctx, "print:value", "the value %s is printed as %r (termToSMT2String) / %r (get_str), which does not denote it" % (q, jf[1], jf[0]),
                               dict(case=line, impl=i, how="echo '%s' | build/harness/h_num" % line))
-    ctx.note("Int constants built from an unparsable spelling (value undefined, compared up to the value): %d" % n_garbage)
+    return True
+
+
+def run(ctx):
+    rng = ctx.rng
+    regenerate(ctx)
+    exe, log = vlib.build_extracted("num")
+    if not exe:
+        ctx.tie_broken("extraction-num", log)
+        return
+    h, hlog = vlib.compile_harness("h_num", flags=("-DNDEBUG", "-I" + os.path.join(vlib.IMPL, "src", "parsers", "smt2new")))
+    if not h:
+        ctx.tie_broken("harness-h_num", hlog)
+        return
+
+    # ------------------------------------------------------------------ cases, in batches (memory)
+    samples = {}
+    state = dict(n_garbage=0)
+    longs = long_literals(rng, 3000 if ctx.quick else 40000)
+    for lines in case_batches(ctx, rng, longs):
+        if not process(ctx, rng, exe, h, lines, samples, state):
+            return
+    ctx.note("Int constants built from an unparsable spelling (value undefined, compared up to the value): %d" % state["n_garbage"])
 
     # ------------------------------------------------------------------ front end
     frontend(ctx, rng, exe, longs, samples)
